@@ -559,6 +559,13 @@ pub fn gen_world(rng: &mut Rng, cfg: &WorldCfg) -> GWorld {
                     is_fresh_import: !locked && rng.chance(1, 2),
                 })
                 .collect();
+            let mut l = l;
+            if l.len() == 2 && rng.chance(1, 2) {
+                // two entries for the same pair of versions: what an unlocked run normally sees
+                // is the locked entry and, after it, the freshly computed one; the function
+                // layer takes them in either order and with either freshness
+                l[1] = UnpublishedEntry { is_fresh_import: l[1].is_fresh_import, ..l[0].clone() };
+            }
             live.unpublished.insert(name.clone(), l);
         }
     }
